@@ -45,7 +45,7 @@ v("c04-component-set-error-dropped", ["C04", "C07"], [(E, "\t\t\tif err := newEn
 # ---- C08
 v("c08-block-no-eof-exit", ["C08"], [(P, "\t\tif p.curTokenIs(token.EOF) || p.curTokenIs(token.ILLEGAL) {\n\t\t\tbreak\n\t\t}\n", "")], rule="R-PROGRESS")
 v("c08-block-no-illegal-exit", ["C08"], [(P, "if p.curTokenIs(token.EOF) || p.curTokenIs(token.ILLEGAL) {", "if p.curTokenIs(token.EOF) {")], rule="R-PROGRESS")
-v("c08-slots-html-loop-no-progress", ["C08"], [(P, "\t\tfor p.curTokenIs(token.HTML) {\n\t\t\tp.nextToken() // skip whitespace\n\t\t}", "\t\tfor p.curTokenIs(token.HTML) {\n\t\t\tif len(slots) > 100 {\n\t\t\t\tp.nextToken() // skip whitespace\n\t\t\t}\n\t\t}")], rule="R-PROGRESS")
+v("c08-slots-html-loop-no-progress", ["C08"], [(P, "\t\tfor p.curTokenIs(token.HTML) && isWhitespace(p.curToken.Literal) {\n\t\t\tp.nextToken() // skip whitespace\n\t\t}", "\t\tfor p.curTokenIs(token.HTML) && isWhitespace(p.curToken.Literal) {\n\t\t\tif len(slots) > 100 {\n\t\t\t\tp.nextToken() // skip whitespace\n\t\t\t}\n\t\t}")], rule="R-PROGRESS")
 v("c08-skipwhitespace-no-readchar", ["C08"], [(L, "\tfor l.char == ' ' || l.char == '\\t' || l.char == '\\n' || l.char == '\\r' {\n\t\tl.readChar()\n\t}", "\tfor l.char == ' ' || l.char == '\\t' || l.char == '\\n' || l.char == '\\r' {\n\t\tif l.isHTML {\n\t\t\tl.readChar()\n\t\t}\n\t}")], rule="R-PROGRESS")
 v("c08-string-loop-ignores-eof", ["C08"], [(L, "\tfor l.char != 0 {\n\t\tprevChar := l.char", "\tfor l.char != quote {\n\t\tprevChar := l.char")], expect="violation", rule="R-")
 v("c08-unterminated-string-accepted", ["C08"], [(L, "\t\tif !closed {\n\t\t\treturn l.newToken(token.ILLEGAL, str)\n\t\t}\n", "\t\t_ = closed\n")], rule="R-DELIM")
@@ -67,7 +67,7 @@ v("c09-mod-zero-guard-removed", ["C09", "C01"], [(E, "\tcase \"%\":\n\t\tif righ
 v("c09-div-zero-guard-removed", ["C09", "C01"], [(E, "\tcase \"/\":\n\t\tif rightVal == 0 {\n\t\t\treturn e.newError(leftNode, fail.ErrDivisionByZero)\n\t\t}\n\n", "\tcase \"/\":\n")], rule="R-DIVGUARD")
 v("c09-for-post-unguarded", ["C09", "C03"], [(E, "\t\tif node.Post == nil {\n\t\t\tcontinue\n\t\t}\n\n", "")], rule="R-NILFIELD")
 v("c09-for-init-assert", ["C09", "C03"], [(E, "\t\tinitStmt, ok := node.Init.(*ast.AssignStmt)\n\t\tif !ok {\n\t\t\tcontinue\n\t\t}\n", "\t\tinitStmt := node.Init.(*ast.AssignStmt)\n")], rule="R-ASSERT")
-v("c09-empty-key-guard-removed", ["C09"], [(E, "\tif idx == \"\" {\n\t\treturn e.newError(node, fail.ErrPropertyNotFound, idx, object.OBJ_OBJ)\n\t}\n\n", "")], rule="R-BOUNDS")
+v("c09-benign-empty-key-guard-removed", ["C09", "C12"], [(E, "\tif idx == \"\" {\n\t\treturn e.newError(node, fail.ErrPropertyNotFound, idx, object.OBJ_OBJ)\n\t}\n\n", "")], expect="silent", note="since the first letter is decoded as a rune the empty name needs no guard: it is looked up under U+FFFD, not found, and reported")
 v("c09-at-negative", ["C09", "C11"], [("evaluator/str_func.go", "if index < 0 || index >= len(chars) {", "if index >= len(chars) {")], rule="R-BOUNDS")
 v("c09-repeat-negative", ["C09", "C11"], [("evaluator/str_func.go", "count := max(int(firstArg.Value), 0)", "count := int(firstArg.Value)")], rule="R-BOUNDS")
 v("c09-slice-end-before-start", ["C09", "C11"], [("evaluator/array_func.go", "\tif end < start {\n\t\tend = start\n\t}\n\n", "")], rule="R-BOUNDS")
@@ -166,6 +166,13 @@ v("c09-decimal-uncapped", ["C09"], [(U, "\t\tif decimals > maxStrLen {\n\t\t\tms
 v("c18-absolute-dir-trimmed", ["C18"], [("textwire.go", "userConfig.TemplateDir = filepath.Clean(opt.TemplateDir)", "userConfig.TemplateDir = strings.Trim(opt.TemplateDir, \"/\")"), ("textwire.go", "\t\"path/filepath\"\n", "\t\"strings\"\n")], rule="R-PATHAPI")
 v("c18-benign-dir-trimright", ["C18"], [("textwire.go", "userConfig.TemplateDir = filepath.Clean(opt.TemplateDir)", "userConfig.TemplateDir = strings.TrimRight(filepath.Clean(opt.TemplateDir), \"/\")"), ("textwire.go", "\t\"path/filepath\"\n", "\t\"path/filepath\"\n\t\"strings\"\n")], expect="silent")
 v("c13-benign-infix-node-renamed", ["C13", "C01"], [(E, "return e.evalInfixOperatorExp(node.Operator, leftObj, rightObj, node)", "op, at := node.Operator, ast.Node(node)\n\n\treturn e.evalInfixOperatorExp(op, leftObj, rightObj, at)")], expect="silent")
+
+v("c08-component-end-not-required", ["C08", "C07"], [(P, "\t// the slots are followed by the \"@end\" of the component\n\tif !p.curTokenIs(token.END) {\n\t\tp.newError(\n\t\t\tp.curToken.ErrorLine(),\n\t\t\tfail.ErrWrongNextToken,\n\t\t\ttoken.String(token.END),\n\t\t\ttoken.String(p.curToken.Type),\n\t\t)\n\n\t\treturn nil\n\t}\n\n", "")], rule="R-DELIM")
+v("c05-slot-gap-text-skipped", ["C05", "C07"], [(P, "\t\tfor p.curTokenIs(token.HTML) && isWhitespace(p.curToken.Literal) {\n\t\t\tp.nextToken() // skip whitespace", "\t\tfor p.curTokenIs(token.HTML) {\n\t\t\tp.nextToken() // skip whitespace")], rule="R-TEXTKEEP")
+v("c08-stray-paren-skipped", ["C08"], [(P, "\tcase token.RPAREN:\n\t\t// \")\" ends a clause of \"@for\"; where a statement is expected it closes nothing\n\t\tp.newError(p.curToken.ErrorLine(), fail.ErrIllegalToken, p.curToken.Literal)\n\t\treturn nil\n", "")], rule="R-DELIM")
+v("c12-first-letter-by-byte", ["C12"], [(E, "\tfirst, size := utf8.DecodeRuneInString(idx)\n\tidxUpper := string(unicode.ToUpper(first)) + idx[size:]\n", "\tidxUpper := strings.ToUpper(idx[:1]) + idx[1:]\n"), (E, "\t\"unicode\"\n\t\"unicode/utf8\"\n", "")], rule="R-UTF8")
+v("c11-truncate-kind-check-after-return", ["C11"], [("evaluator/str_func.go", "\tellipsis := \"...\"\n\n\tif len(args) > 1 {\n\t\tsecondArg, ok := args[1].(*object.Str)\n\n\t\tif ok {\n\t\t\tellipsis = secondArg.Value\n\t\t} else {\n\t\t\tmsg := fmt.Sprintf(fail.ErrFuncSecondArgStr, \"truncate\", object.STR_OBJ)\n\t\t\treturn nil, errors.New(msg)\n\t\t}\n\t}\n\n\tval := receiver.(*object.Str).Value\n\tchars := []rune(val)\n\tlimit := max(int(firstArg.Value), 0)\n\n\tif limit >= len(chars) {\n\t\treturn &object.Str{Value: val}, nil\n\t}\n", "\tval := receiver.(*object.Str).Value\n\tchars := []rune(val)\n\tlimit := max(int(firstArg.Value), 0)\n\n\tif limit >= len(chars) {\n\t\treturn &object.Str{Value: val}, nil\n\t}\n\n\tellipsis := \"...\"\n\n\tif len(args) > 1 {\n\t\tsecondArg, ok := args[1].(*object.Str)\n\n\t\tif ok {\n\t\t\tellipsis = secondArg.Value\n\t\t} else {\n\t\t\tmsg := fmt.Sprintf(fail.ErrFuncSecondArgStr, \"truncate\", object.STR_OBJ)\n\t\t\treturn nil, errors.New(msg)\n\t\t}\n\t}\n")], rule="R-ARGS")
+v("c18-error-text-as-format", ["C18", "C13"], [("fail/fail.go", "return New(line, absPath, origin, \"%s\", err.Error())", "return New(line, absPath, origin, err.Error())")], rule="R-FORMAT")
 
 with open(os.path.join(HERE, "twcheck", "selftest", "variants.json"), "w") as f:
     json.dump(V, f, indent=1)
